@@ -1404,3 +1404,19 @@ def infeasible_edges(body):
             out.add((bb, t["otherwise"]))
     body._infeasible = out
     return out
+
+
+def must_from(body, operand, at_call, src_call):
+    """(ok, why): on every path the value of `operand` (an argument of at_call) is the result of src_call:
+    src_call's completion dominates at_call, the backward closure of the operand reaches src_call's result and
+    contains no other producer (other calls / constants / aggregates) besides transparent wrappers."""
+    o = origins(body, operand)
+    hits = [bb for bb, t, _ in o.calls if bb == src_call.bb]
+    others = sorted({fname(t["func"]).rsplit("::", 1)[-1] for bb, t, _ in o.calls if bb != src_call.bb})
+    nones = [rv.get("variant") for _, rv in o.aggs if rv.get("variant") in ("None",)]
+    dom = body.dominates(src_call.done_bb, at_call.bb)
+    ok = bool(hits) and dom and not others and not nones and not o.params
+    why = "sources: %s%s%s; generate dominates: %s" % (
+        "generate" if hits else "-", (" + " + "/".join(others)) if others else "",
+        (" + params %s" % sorted(o.params)) if o.params else "", dom)
+    return ok, why
